@@ -168,20 +168,18 @@ Qed.
 
 Theorem cli_bad_name : forall o c p L T,
   perm_oracle o -> wf_pkgb p = true -> (forall T', In T' L -> is_ident T' = true) ->
-  In T L -> nameable c p T = false -> is_local p T = false ->
-  (c = CEnum -> alias_named p T = true \/ consts_of p T <> 0) ->
+  In T L -> nameable c p T = false ->
   exists d, shoot_cli o c ["-type=" ++ join "," L] p = COut (Failed d).
 Proof.
-  intros o c p L T Ho Hwf Hid HT Hn Hl Hen.
+  intros o c p L T Ho Hwf Hid HT Hn.
   assert (Hne : L <> []) by (intros C; subst; contradiction).
   destruct (parse_type_list c L Hne Hid) as [vals Hp]. unfold shoot_cli. rewrite Hp.
-  destruct (bad_name_fails o c (flags_of c ["-type=" ++ join "," L] L true "" true) p T Ho Hwf eq_refl HT Hn Hl Hen) as [d Hd].
+  destruct (bad_name_fails o c (flags_of c ["-type=" ++ join "," L] L true "" true) p T Ho Hwf eq_refl HT Hn) as [d Hd].
   exists d. rewrite Hd. reflexivity.
 Qed.
 
 Theorem cli_file : forall o c p f,
   perm_oracle o -> wf_pkgb p = true -> In f (p_files p) -> ends_with ".go" (f_name f) = true ->
-  existsb (test_node_list c) (local_specs p) = false ->
   let sel := map ts_name (filter (listable c p) (top_specs f)) in
   shoot_cli o c ["-file=" ++ f_name f] p =
   COut (match sel with
@@ -190,7 +188,7 @@ Theorem cli_file : forall o c p f,
                     (o _ [trim_go (f_name f) ++ "." ++ shootcmd c ++ ".go"])
         end).
 Proof.
-  intros o c p f Ho Hwf Hf Hgo Hloc sel.
+  intros o c p f Ho Hwf Hf Hgo sel.
   assert (Hne : f_name f <> "").
   { intros C. pose proof (wf_visible p (wf_pkgb_wf p Hwf) f Hf) as V. rewrite C in V. discriminate. }
   destruct (parse_file_arg c (f_name f) Hne) as [vals Hp]. unfold shoot_cli. rewrite Hp. f_equal.
@@ -200,7 +198,6 @@ Qed.
 Theorem cli_star : forall o c p g,
   perm_oracle o -> wf_pkgb p = true ->
   find (file_has_cmdline ("shoot " ++ sub_name c ++ " -type=*")) (p_files p) = Some g ->
-  existsb (test_node_list c) (local_specs p) = false ->
   let sel := map ts_name (filter (listable c p) (pkg_specs p)) in
   shoot_cli o c ["-type=*"] p =
   COut (match sel with
@@ -209,7 +206,7 @@ Theorem cli_star : forall o c p g,
                     (o _ [trim_go (f_name g) ++ "." ++ shootcmd c ++ ".go"])
         end).
 Proof.
-  intros o c p g Ho Hwf Hg Hloc sel.
+  intros o c p g Ho Hwf Hg sel.
   destruct (parse_star c) as [vals Hp]. unfold shoot_cli. rewrite Hp. f_equal.
   set (fl := flags_of c ["-type=*"] ["*"] false "" false).
   assert (Haio : all_in_one_file fl p = f_name g).
@@ -220,4 +217,16 @@ Proof.
   rewrite <- Haio. apply (star_mode_exact o c fl p); try assumption; try reflexivity.
   rewrite Haio. intros C. pose proof (find_some _ _ Hg) as [Hin _].
   pose proof (wf_visible p (wf_pkgb_wf p Hwf) g Hin) as V. rewrite C in V. discriminate.
+Qed.
+
+(* `-type=A,B` where two names map to one output file (Order, ORDER): a diagnostic, no file *)
+Theorem cli_name_clash : forall o c p L,
+  perm_oracle o -> wf_pkgb p = true -> L <> [] -> (forall T, In T L -> is_ident T = true) ->
+  ~ NoDup (map (fun T => per_type_name c (decl_file p T) T) L) ->
+  exists d, shoot_cli o c ["-type=" ++ join "," L] p = COut (Failed d).
+Proof.
+  intros o c p L Ho Hwf Hne Hid Hnd.
+  destruct (parse_type_list c L Hne Hid) as [vals Hp]. unfold shoot_cli. rewrite Hp.
+  destruct (name_clash_fails o c (flags_of c ["-type=" ++ join "," L] L true "" true) p Ho Hwf eq_refl eq_refl eq_refl Hnd) as [d Hd].
+  exists d. rewrite Hd. reflexivity.
 Qed.
